@@ -1234,6 +1234,7 @@ def tables_group():
         pos_fields = {"z": "z", "profiles": "profiles", "domain": "domain", "modes": "modes", "meas_pt": "measPt",
                       "halo": "halo", "precision": "precision"}
         key_fields = [pos_fields[p_] for p_ in params if p_ in pos_fields and p_ in hashed]
+        key_params = list(params)
         # call sites in the solver
         stree = ast.parse(open(os.path.join(REPO_SRC, "solver.py")).read())
         sfn = [n for n in ast.walk(stree) if isinstance(n, ast.FunctionDef) and n.name == "steady_state_transport_solver"][0]
@@ -1266,6 +1267,31 @@ def tables_group():
             for nm, site in zip(extra_names, extra_at_site):
                 if nm in hashed and site in site_map:
                     key_fields.append(site_map[site])
+        # the positional arguments at both call sites must be the solver's own parameters (the halo may be the
+        # resolved name): a field whose slot is fed by anything else is NOT a key field
+        def site_args(call):
+            return [ast.unparse(a) for a in call.args]
+        solver_name = {"z": "z", "profiles": "profiles", "domain": "domain", "modes": "modes", "meas_pt": "meas_pt",
+                       "halo": "halo", "precision": "precision"}
+        for cname in ("cache.get", "cache.put"):
+            sa = site_args(calls[cname])
+            for idx, p_ in enumerate([q for q in key_params if q in pos_fields]):
+                if idx >= len(sa):
+                    continue
+                ok_ = sa[idx] == solver_name[p_] or (p_ == "halo" and sa[idx] in resolved_names)
+                if not ok_ and pos_fields[p_] in key_fields:
+                    key_fields.remove(pos_fields[p_])
+        # the call sites and the definitions of the derived names they use, as text
+        defs_used = []
+        for n in ast.walk(sfn):
+            if isinstance(n, ast.Assign):
+                t = ast.unparse(n.targets[0])
+                if t in resolved_names or t.startswith("cache") or any(t == a for cn in calls.values() for a in site_args(cn)):
+                    if t not in ("cached",):
+                        defs_used.append("%s = %s" % (t, ast.unparse(n.value)))
+        site_lines = sorted(set(defs_used)) + ["%s(%s)" % (cn, ", ".join(site_args(calls[cn]) + ["%s=%s" % (kw.arg, ast.unparse(kw.value)) for kw in calls[cn].keywords]))
+                                               for cn in ("cache.get", "cache.put")]
+        lines.append("def cacheCallSites : List String := %s" % lean_strs(site_lines))
         put = cf["put"]
         atomic = any(isinstance(n, ast.Call) and ast.unparse(n.func) in ("os.replace", "os.rename") for n in ast.walk(put))
         get = cf["get"]
